@@ -33,7 +33,7 @@ def pump_family(rnd, npts):
     return {"A": A, "B": B, "cp": cp, "cq": cq, "curve": pts}
 
 
-def gen(rnd, sid, mode=None, features=None):
+def gen(rnd, sid, mode=None, features=None, tank_bias=False):
     """features: set of strings that bias the generator:
     tanks, pumps, valves, leaks, controls, parallel, cv, closed, patterns, vcurve"""
     f = features if features is not None else {"tanks", "pumps", "valves", "leaks", "controls", "parallel", "cv",
@@ -55,20 +55,24 @@ def gen(rnd, sid, mode=None, features=None):
     nj = rnd.randint(3, 7)
     nres = rnd.choice([1, 1, 2])
     ntank = rnd.choice([0, 1, 1, 2]) if "tanks" in f else 0
+    if tank_bias:
+        ntank = rnd.choice([1, 1, 2])
+        s["Dur"] = H * rnd.randint(10, 20)
     for i in range(nres):
         s["nodes"].append({"name": "R%d" % i, "type": "R", "elev": 0.0, "head": rgrid(rnd, 55, 80, 2.5), "pat": ""})
     for i in range(ntank):
         elev = rgrid(rnd, 35, 50, 2.5)
         minl, maxl = rgrid(rnd, 0, 1, 0.5), rgrid(rnd, 5, 9, 0.5)
         t = {"name": "T%d" % i, "type": "T", "elev": elev, "minl": minl, "maxl": maxl,
-             "init": rgrid(rnd, minl + 0.5, maxl - 0.5, 0.25), "diam": rgrid(rnd, 8, 20, 1), "vcurve": [],
+             "init": rgrid(rnd, minl + 0.5, maxl - 0.5, 0.25),
+             "diam": rgrid(rnd, 3, 7, 1) if tank_bias else rgrid(rnd, 8, 20, 1), "vcurve": [],
              "leak": {"on": False, "area": 0.0, "cd": 0.75, "start": -1, "end": -1}}
         if "vcurve" in f and rnd.random() < 0.4:
             # monotone volume curve from level 0 to above max level (levels on a 0.5 grid, volumes integers)
             lv, vol, pts = 0.0, 0.0, [[0.0, 0.0]]
             while lv < maxl + 1:
                 lv += rnd.choice([1.0, 1.5, 2.5])
-                vol += rnd.choice([100.0, 250.0, 400.0])
+                vol += rnd.choice([60.0, 120.0, 200.0]) if tank_bias else rnd.choice([100.0, 250.0, 400.0])
                 pts.append([lv, vol])
             pts.append([lv + 20.0, vol + 8000.0])      # the curve extends far beyond the maximum level
             t["vcurve"] = pts
